@@ -182,13 +182,26 @@ func c12Shapes() []*spec.Spec {
 			&spec.Conn{From: "PSB.out", To: "PC.u", Param: true}, &spec.Conn{From: "PSC.out", To: "PC.v", Param: true})
 		out = append(out, s)
 	}
-	// two joined in-ports, each fed by its own StreamToSubStream
+	// two joined in-ports, non-matching %suffix modifiers in three processes at once, each fed by its own StreamToSubStream
 	{
 		s := mk("two_joins", 4)
 		s.Procs = append(s.Procs, cmd("UA", in, o1, 1), cmd("UB", in, o1, 1), &spec.Proc{Name: "SSA", Kind: spec.KSubStream}, &spec.Proc{Name: "SSB", Kind: spec.KSubStream},
 			&spec.Proc{Name: "JN2", Kind: spec.KCmd, Cmd: "echo A:{i:a|join:,}:A B:{i:b|join: }:B > {o:out}", Outs: []*spec.Out{{Port: "out", Pattern: "joined2.out"}}})
 		s.Conns = append(s.Conns, &spec.Conn{From: "src.out", To: "UA.in"}, &spec.Conn{From: "src.out", To: "UB.in"}, &spec.Conn{From: "UA.out", To: "SSA.in"}, &spec.Conn{From: "UB.out", To: "SSB.in"},
 			&spec.Conn{From: "SSA.substream", To: "JN2.a"}, &spec.Conn{From: "SSB.substream", To: "JN2.b"})
+		out = append(out, s)
+	}
+	// path modifiers that do not apply (a %suffix the file name does not end with - the library warns about it), in
+	// three processes that create their tasks at the same time
+	{
+		in, o1 := []spec.PortDecl{{Name: "in"}}, []spec.PortDecl{{Name: "out"}}
+		s := mk("trimwarn", 12)
+		for k, sfx := range []string{".dat", ".gz", ".a-much-longer-suffix-than-the-whole-file-name-is.txt"} {
+			pn := fmt.Sprintf("tw%d", k)
+			s.Procs = append(s.Procs, &spec.Proc{Name: pn, Kind: []string{spec.KCmd, spec.KGoFunc, spec.KCmd}[k], Cmd: spec.BuildCmd(pn, in, o1, nil, nil, nil),
+				Outs: []*spec.Out{{Port: "out", Pattern: "{i:in|%" + sfx + "}." + pn + ".out"}}})
+			s.Conns = append(s.Conns, &spec.Conn{From: "src.out", To: pn + ".in"})
+		}
 		out = append(out, s)
 	}
 	// a second workflow with a log file of its own is created while the first one is running (two workflows in one
@@ -218,7 +231,7 @@ func c12Shapes() []*spec.Spec {
 func c12(args []string) {
 	c := chk.New("C12", "exploration", args)
 	c.Build(true)
-	c.Rule("the subject built with the Go race detector (-race, GORACE=halt_on_error=0 log_path=...) runs generated graphs biased to shared state (fan-out of one out-port to several consumers, MapToTags beside sibling consumers, multi-output tasks feeding different consumers, fan-in, multi-core tasks, parameter feeders and combinators, Go functions) and directed shapes (tagging + reading siblings + GroupByTag concatenation, simultaneous closing of 6 upstreams, RunTo with literal parameter feeders, components with internal goroutines, a streaming pair, 16 streamed items from a producer with additional regular outputs, one out-port fanned out to Go functions that Read() the same items, the sink draining files and parameters at once, two joined in-ports, a second workflow with a custom log file created while a first one is running), each under several yield-point seeds and GOMAXPROCS values, every second run with passive hooks, every fourth also with the library's logging reduced to errors (an active hook takes the monitor mutex, which is a synchronisation the race detector sees and which would order accesses the plain library leaves unordered); oracle: every 'WARNING: DATA RACE' block with a scipipe frame is a violation, de-duplicated by the pair of innermost scipipe frames; blocks without any scipipe frame are harness bugs (check reported as broken). distinct_nontrivial = distinct interleaving signatures observed under the race detector")
+	c.Rule("the subject built with the Go race detector (-race, GORACE=halt_on_error=0 log_path=...) runs generated graphs biased to shared state (fan-out of one out-port to several consumers, MapToTags beside sibling consumers, multi-output tasks feeding different consumers, fan-in, multi-core tasks, parameter feeders and combinators, Go functions) and directed shapes (tagging + reading siblings + GroupByTag concatenation, simultaneous closing of 6 upstreams, RunTo with literal parameter feeders, components with internal goroutines, a streaming pair, 16 streamed items from a producer with additional regular outputs, one out-port fanned out to Go functions that Read() the same items, the sink draining files and parameters at once, two joined in-ports, non-matching %suffix modifiers in three processes at once, a second workflow with a custom log file created while a first one is running), each under several yield-point seeds and GOMAXPROCS values, every second directed shape also re-run in place after it completed (all tasks skipped, IPs loaded from disk), every second run with passive hooks, every fourth also with the library's logging reduced to errors (an active hook takes the monitor mutex, which is a synchronisation the race detector sees and which would order accesses the plain library leaves unordered); oracle: every 'WARNING: DATA RACE' block with a scipipe frame is a violation, de-duplicated by the pair of innermost scipipe frames; blocks without any scipipe frame are harness bugs (check reported as broken). distinct_nontrivial = distinct interleaving signatures observed under the race detector")
 	c.Assume("the race detector reports happens-before violations on executed paths only")
 	rng := c.Rand("c12")
 	type job struct {
@@ -255,6 +268,21 @@ func c12(args []string) {
 		root := c.CaseDir()
 		defer c.Drop(root)
 		res := execSpec(c, root, j.s, j.cfg, nil, false, 0)
+		streams := false
+		for _, p := range j.s.Procs {
+			if strings.Contains(p.Cmd, "{os:") {
+				streams = true // (re-running a streaming workflow is C17's history, with a known finding of its own)
+			}
+		}
+		if strings.HasPrefix(j.tag, "shape:") && i%2 == 0 && res.Exit == 0 && res.Hang == "" && !streams {
+			// history: the completed workflow is run again in place (every task is skipped, the IPs are made from the
+			// files and audit files on disk); the race reports of both runs are judged
+			r2 := execSpec(c, root, j.s, j.cfg, nil, true, 1)
+			c.Count("reruns_under_the_race_detector", 1)
+			if r2.Hang != "" && !strings.HasPrefix(r2.Hang, "deadlock") {
+				c.Inconclusive("re-run: " + r2.Hang)
+			}
+		}
 		reports := mon.ParseRaceLogs(filepath.Join(root, "meta", "race"))
 		c.Count("race_report_blocks", len(reports))
 		c.Count("hook_events", len(res.Events))
